@@ -1073,8 +1073,79 @@ class Flattener(object):
             i += 1
         return out
 
+    def _split_tuple_copies(self, stmts):
+        """t = (a, b); x, y = t   ==>   x, y = (a, b)      (t used nowhere else)
+           x, y = (a, b)           ==>   x = a; y = b       (a, b names / constants none of which is x or y)"""
+        out = []
+        i = 0
+        stmts = list(stmts)
+        while i < len(stmts):
+            s = stmts[i]
+            nxt = stmts[i + 1] if i + 1 < len(stmts) else None
+            if isinstance(s, ast.Assign) and len(s.targets) == 1 and isinstance(s.targets[0], ast.Name) and isinstance(s.value, ast.Tuple) and \
+                    isinstance(nxt, ast.Assign) and len(nxt.targets) == 1 and isinstance(nxt.targets[0], ast.Tuple) and \
+                    isinstance(nxt.value, ast.Name) and nxt.value.id == s.targets[0].id and len(nxt.targets[0].elts) == len(s.value.elts):
+                t = s.targets[0].id
+                uses = [n for n in ast.walk(self._node) if isinstance(n, ast.Name) and n.id == t]
+                if len(uses) <= 2 or not any(n is not s.targets[0] and n is not nxt.value for n in uses):
+                    nxt.value = s.value
+                    s = nxt
+                    i += 1
+            if isinstance(s, ast.Assign) and len(s.targets) == 1 and isinstance(s.targets[0], ast.Tuple) and isinstance(s.value, ast.Tuple) and \
+                    len(s.targets[0].elts) == len(s.value.elts) and all(isinstance(t_, ast.Name) for t_ in s.targets[0].elts) and \
+                    all(isinstance(v_, (ast.Name, ast.Constant)) for v_ in s.value.elts):
+                tn = {t_.id for t_ in s.targets[0].elts}
+                vn = {v_.id for v_ in s.value.elts if isinstance(v_, ast.Name)}
+                if not (tn & vn) and len(tn) == len(s.targets[0].elts):
+                    for t_, v_ in zip(s.targets[0].elts, s.value.elts):
+                        out.append(ast.copy_location(ast.Assign(targets=[t_], value=v_), s))
+                    self.desugared += 1
+                    i += 1
+                    continue
+            out.append(s)
+            i += 1
+        return out
+
+    def _coalesce_copies(self, stmts):
+        """x__iN = ...; ...(x__iN updated)...; y = x__iN      ==>      y = ...; ...(y updated)...
+        for a temporary of the inliner that is used nowhere after the copy, when y is not mentioned between the first store to
+        the temporary and the copy (so giving the temporary the name y changes nothing that is read)"""
+        import re as _re
+        stmts = list(stmts)
+        j = 0
+        while j < len(stmts):
+            s = stmts[j]
+            if isinstance(s, ast.Assign) and len(s.targets) == 1 and isinstance(s.targets[0], ast.Name) and isinstance(s.value, ast.Name) and \
+                    _re.search(r'__i\d+_*$', s.value.id) and s.value.id != s.targets[0].id:
+                x, y = s.value.id, s.targets[0].id
+                first = None
+                for i in range(j):
+                    if any(isinstance(n, ast.Name) and n.id == x and isinstance(n.ctx, ast.Store) for n in ast.walk(stmts[i])):
+                        first = i
+                        break
+                if first is not None:
+                    region = stmts[first:j]
+                    region_ids = {id(n) for r_ in region for n in ast.walk(r_)} | {id(s.value)}
+                    all_x = [n for n in ast.walk(self._node) if isinstance(n, ast.Name) and n.id == x]
+                    y_inside = any(isinstance(n, ast.Name) and n.id == y for r_ in region for n in ast.walk(r_))
+                    # (nodes of this block may not be attached to the function yet: then only the region is known to mention x)
+                    outside = [n for n in all_x if id(n) not in region_ids]
+                    later = any(isinstance(n, ast.Name) and n.id == x for r_ in stmts[j + 1:] for n in ast.walk(r_))
+                    if not y_inside and not outside and not later:
+                        for r_ in region:
+                            for n in ast.walk(r_):
+                                if isinstance(n, ast.Name) and n.id == x:
+                                    n.id = y
+                        del stmts[j]
+                        self.desugared += 1
+                        continue
+            j += 1
+        return stmts
+
     def desugar(self, stmts):
         stmts = self._sink_test_through_choice(stmts)
+        stmts = self._split_tuple_copies(stmts)
+        stmts = self._coalesce_copies(stmts)
         out = []
         for s in stmts:
             for field in ('body', 'orelse', 'finalbody'):
